@@ -48,6 +48,7 @@ def plan(tier, seed):
         for i in range(n):
             specs.append({"kind": kind, "idx": i, "n": n, "budget_s": 40 if tier == "quick" else 235})
     specs.append({"kind": "wide_items", "idx": 0, "n": 1})
+    specs.append({"kind": "peek", "idx": 0, "n": 1, "budget_s": 15 if tier == "quick" else 120})
     return specs
 
 
@@ -61,7 +62,7 @@ def finalize(agg, tier):
     need += ["guard_page_buffers", "in_place_calls", "scribbled_buffers", "xof_reads", "ctor_first", "final_combined", "reseek",
              "ptype:bytearray", "ptype:memoryview", "tagkind:bytearray", "tagkind:memoryview", "verify:ok", "verify:ValueError",
              "suite:exhaustive3", "suite:drizzle", "suite:empty", "suite:kinds_x_places", "suite:ptypes", "suite:random",
-             "suite:bigblock", "ccm:undeclared", "wide_item_views"]
+             "suite:bigblock", "ccm:undeclared", "wide_item_views", "peek_looks"]
     for n in need:
         if not c.get(n):
             out.append("deciding counter %s is zero" % n)
@@ -144,9 +145,75 @@ def w_wide_items(spec, ctx):
               "nor the one for their prefix", lambda: {"examples": other[:6]})
 
 
+def w_peek(spec, ctx):
+    """Segmentation with LOOKS in between: for the classes that document update() after digest() (MD*, SHA-1, SHA-2, RIPEMD,
+    HMAC over them, and the update_after_digest=True variants) the tag / digest is read - digest(), hexdigest(), a failing
+    verify() - between two segments.  Every look must show the value for the data supplied SO FAR, the last one the value
+    for the whole concatenation."""
+    from Crypto.Hash import SHA1, SHA224, SHA256, SHA384, SHA512, MD5, MD4, MD2, RIPEMD160, HMAC, SHA3_256, SHA3_512, BLAKE2b, BLAKE2s, \
+        keccak, CMAC
+    from Crypto.Cipher import AES
+    rng = ctx.rng
+    key = rng.randbytes(20)
+    makers = [("SHA1", lambda: SHA1.new()), ("SHA224", lambda: SHA224.new()), ("SHA256", lambda: SHA256.new()), ("SHA384", lambda: SHA384.new()),
+              ("SHA512", lambda: SHA512.new()), ("SHA512/256", lambda: SHA512.new(truncate="256")), ("MD5", lambda: MD5.new()),
+              ("MD4", lambda: MD4.new()), ("MD2", lambda: MD2.new()), ("RIPEMD160", lambda: RIPEMD160.new()),
+              ("HMAC-SHA256", lambda: HMAC.new(key, digestmod=SHA256)), ("HMAC-SHA1", lambda: HMAC.new(key, digestmod=SHA1)),
+              ("HMAC-MD5", lambda: HMAC.new(key)), ("HMAC-SHA512", lambda: HMAC.new(key * 9, digestmod=SHA512)),
+              ("SHA3_256[uad]", lambda: SHA3_256.new(update_after_digest=True)), ("SHA3_512[uad]", lambda: SHA3_512.new(update_after_digest=True)),
+              ("BLAKE2b[uad]", lambda: BLAKE2b.new(digest_bytes=32, update_after_digest=True)),
+              ("BLAKE2s[uad,keyed]", lambda: BLAKE2s.new(digest_bytes=16, key=key[:16], update_after_digest=True)),
+              ("keccak[uad]", lambda: keccak.new(digest_bits=256, update_after_digest=True)),
+              ("CMAC[uad]", lambda: CMAC.new(key[:16], ciphermod=AES, update_after_digest=True))]
+    first = True
+    while first or not ctx.expired():
+        first = False
+        for name, mk in makers:
+            n = rng.choice([0, 1, 63, 64, 65, 200, 1000])
+            data = rng.randbytes(n)
+            cuts = sorted(rng.randrange(n + 1) for _ in range(rng.choice([1, 2, 4])))
+            o = mk()
+            pos = 0
+            looks = []
+            ok = True
+            for cut in cuts + [n]:
+                o.update(data[pos:cut])
+                pos = cut
+                look = rng.choice(["digest", "hexdigest", "verify-wrong", "digest-twice", "none"]) if cut != n or rng.random() < 0.5 else "digest"
+                if look == "none":
+                    continue
+                ref = mk()
+                ref.update(data[:pos])
+                want = ref.digest()
+                if look == "verify-wrong" and hasattr(o, "verify"):
+                    try:
+                        o.verify(bytes(len(want)))
+                    except ValueError:
+                        pass
+                    got = o.digest()
+                elif look == "hexdigest":
+                    got = bytes.fromhex(o.hexdigest())
+                else:
+                    got = o.digest()
+                    if look == "digest-twice":
+                        got = o.digest()
+                looks.append((look, pos))
+                ctx.count("peek_looks")
+                if got != want:
+                    ok = False
+                    break
+            ctx.case(("peek", name, len(cuts), tuple(l for l, _ in looks)))
+            ctx.check(ok, "segmentation-with-looks:%s:value-differs" % name.split("[")[0].split("-")[0],
+                      "a digest / tag read between two segments (or after them) is not the value for the data supplied so far",
+                      lambda: {"class": name, "data": data.hex()[:400], "data_len": n, "segments_end_at": cuts + [n], "looks": looks,
+                               "got": got.hex(), "expected": want.hex()})
+
+
 def run(spec, ctx):
     if spec["kind"] == "wide_items":
         return w_wide_items(spec, ctx)
+    if spec["kind"] == "peek":
+        return w_peek(spec, ctx)
     from vf import guard
     from .c09lib import objs as O
     try:
